@@ -437,3 +437,26 @@ func areaCPU(fail func(string, ...interface{})) int {
 	}
 	return n
 }
+
+// coldColour: identities and a few ratios over a stride of the colours.
+func coldColour(fail func(string, ...interface{})) int {
+	n := 0
+	for c := 0; c < 1<<15; c += 37 {
+		col := color15.Color(c)
+		for _, rt := range [][2]int{{1, 1}, {255, 255}, {7, 255}, {31, 16}, {200, 100}, {128, 129}} {
+			want := 0
+			for i := uint(0); i < 3; i++ {
+				q := (c >> (5 * i) & 31) * rt[0] / rt[1]
+				if q > 31 {
+					q = 31
+				}
+				want |= q << (5 * i)
+			}
+			if got := col.MulDiv(uint8(rt[0]), uint8(rt[1])); int(got) != want {
+				fail("colour: Color(%#04x).MulDiv(%d,%d)=%#04x want %#04x", c, rt[0], rt[1], got, want)
+			}
+			n++
+		}
+	}
+	return n
+}
